@@ -30,6 +30,7 @@ func main() {
 	known := flag.String("known", "/verif/known_findings.json", "known findings file")
 	noReplay := flag.Bool("noreplay", false, "skip native replay")
 	replayFile := flag.String("replay", "", "replay one model file natively and exit")
+	deadline := flag.Int("deadline", 0, "seconds after which exploration stops and what was found is reported (0 = none)")
 	flag.Parse()
 
 	if *replayFile != "" {
@@ -73,7 +74,11 @@ func main() {
 		os.Exit(2)
 	}
 	seed, _ := strconv.ParseInt(os.Getenv("VERIF_SEED"), 10, 64)
-	cfg := &RunCfg{Workers: *workers, SolverBin: *solver, TimeoutMs: *timeout, LiveTimeoutMs: 3000, Thorough: *thorough,
+	var dl time.Time
+	if *deadline > 0 {
+		dl = t0.Add(time.Duration(*deadline) * time.Second)
+	}
+	cfg := &RunCfg{Deadline: dl, Workers: *workers, SolverBin: *solver, TimeoutMs: *timeout, LiveTimeoutMs: 3000, Thorough: *thorough,
 		MaxPaths: *maxPaths, LoopBound: 40, MaxSteps: 2000000, MaxVisible: 400, Seed: seed, LogSMT: *logSMT}
 
 	var runs []*HarnessRun
